@@ -23,6 +23,15 @@ func runC18(c *Ctx) {
 	cmp := func(name, live string) {
 		gen := c.drv.Ask("gen.dump " + name)
 		c.Case("gen.readback", name, false, fmt.Sprintf("gen.dump %s (%d bytes)", name, len(live)/2))
+		// the table the published derivation gives, computed by the specification (the failing-input search:
+		// names the first wrong entry when a table was altered)
+		if spec := c.drv.Ask("spec.table " + name); spec != live {
+			i := 0
+			for i < len(spec) && i < len(live) && spec[i] == live[i] {
+				i++
+			}
+			c.Disagree(Disagreement{Kind: "impl!=spec", Class: name, Request: "spec.table " + name, SpecReq: "spec.table " + name, Impl: fmt.Sprintf("live table differs from its derivation at byte offset %d: live …%s", i/2, clip(live, i-i%2)), Spec: fmt.Sprintf("derived …%s", clip(spec, i-i%2)), Stream: "gen.readback"})
+		}
 		if gen != live {
 			i := 0
 			for i < len(gen) && i < len(live) && gen[i] == live[i] {
